@@ -143,6 +143,8 @@ impl Property for C07 {
             "api_twice": rng.chance(1, 3),
             // "no limit" written as a very large LIMIT
             "huge_n": rng.chance(1, 4),
+            // the inputs are pipes (`cmd | sqlgrep --stdin`): whatever is read beyond the limit is lost to the producer
+            "pipe": rng.chance(1, 8),
         })
     }
 
@@ -165,6 +167,7 @@ impl Property for C07 {
         bool_field(case, "noprint", false, &mut out);
         bool_field(case, "api_twice", false, &mut out);
         bool_field(case, "huge_n", false, &mut out);
+        bool_field(case, "pipe", false, &mut out);
         if case.get("only_n").map(|x| x.is_null()).unwrap_or(true) {
             for n in 0..6 {
                 out.push(with_field(case, "only_n", json!(n)));
@@ -280,6 +283,7 @@ impl Property for C07 {
             b.format = format.clone();
             b.single_result = single;
             b.read_mode = read_mode.clone();
+            b.pipe_inputs = jbool(case, "pipe");
             let label = format!("batch LIMIT {}", n);
             let res = run(&mut out, &label, &b, false);
             let mut failed = |out: &mut Outcome, class: &str, detail: String, spec: &WorldSpec, features: &J| {
@@ -432,6 +436,7 @@ impl Property for C07 {
         out.probe("multi_file", (files.iter().filter(|f| !f.is_empty()).count() > 1) as u64);
         out.probe("large_more_than_1024_rows_or_groups", (rows > 1024) as u64);
         out.probe("large_more_than_16_rows", (rows > 16) as u64);
+        out.probe("inputs_are_pipes", jbool(case, "pipe") as u64);
         out.probe("filter_on_joined_column", (stmt.contains("WHERE u.") || stmt.contains("WHERE w ")) as u64);
         out
     }
